@@ -82,6 +82,62 @@ TEXT = {
                    "the sort column): mixed str/number columns are outside what the statement's rows can "
                    "mean once NumPy coerces them.",
         design_ref="4 (C20)"),
+    "C14": dict(
+        technique="deterministic simulation with fault injection: seeded chains of parse transactions "
+                  "over chained DIP environments, statement-by-statement reference model (last-write-wins "
+                  "register in the definition's type and unit), aborting assignments as faults",
+        level_text="Exploration of seeded histories: up to 6 parse rounds per run, each 1-20 generated "
+                   "statements (groups, typed definitions and declarations of bool / int / float / str "
+                   "scalars and 1-D / 2-D arrays incl. sub-types, typed and untyped modifications with no "
+                   "unit / same unit / other unit of the same dimension / custom $unit, !constant) split "
+                   "over several add_string calls and chained on any earlier committed environment. The "
+                   "model predicts, statement by statement, the value in the definition's unit (0, "
+                   "negatives, false, none included); faults are the four aborting assignments (other data "
+                   "type, unit of another dimension or unit on a unit-less node, write to a constant, "
+                   "declared node left without value). Oracles: commit/abort as predicted, names in order "
+                   "of first appearance, type class / width / sign, unit and value (1e-12 relative).",
+        level_note="Width changes, modifications of never-defined nodes, empty strings, none for array "
+                   "nodes or with a unit, integer nodes converted by non-integer factors and a declared "
+                   "node explicitly set to none are not generated (the statement does not settle them); "
+                   "property directives only directly after a new node.",
+        design_ref="4 (C14/C16/C17), Appendix A"),
+    "C16": dict(
+        technique="deterministic simulation with fault injection: seeded parse transactions with "
+                  "constrained nodes, constraint violations (also on nodes constrained in an earlier "
+                  "round) as faults, independent re-validation of every returned environment",
+        level_text="Exploration of seeded histories on the same store machine with the constraint mix: "
+                   "options (per-line and list form, in other units and custom units), !condition over {?} "
+                   "with < <= > >= == != joined by && and || for numeric, string and boolean nodes, "
+                   "!format, bounded array dimensions, declarations; final values exactly on a closed "
+                   "boundary in the node's own unit, well inside, or clearly (>= 1e-3) outside; "
+                   "constraints attached in one round and violated by a modification in a later chained "
+                   "round. Oracles: the model's commit/abort verdict in both directions (reject and "
+                   "accept), and an independent evaluator re-checks every returned environment against "
+                   "all constraints its nodes carry, whatever the model predicted.",
+        level_note="Values within 1e-3 relative of a boundary without sitting on it are treated as "
+                   "unspecified (the library compares with 1e-6 tolerance); constrained nodes are not "
+                   "set to none; condition literals have the node's type and dimension.",
+        design_ref="4 (C14/C16/C17), Appendix A"),
+    "C17": dict(
+        technique="deterministic simulation with fault injection: seeded parse transactions with "
+                  "injections, imports, remote sources behind an in-memory file system with per-open I/O "
+                  "faults and content replaced between rounds; snapshot oracle on every earlier environment",
+        level_text="Exploration of seeded histories on the same store machine with the reference mix: "
+                   "injections {?p} / {s?p} into new and existing nodes with and without host unit and "
+                   "slices (arrays and strings), injections of file text, imports {?p.*} / {?p} / {?*} / "
+                   "{s?...} below fresh groups, $source of DIP and text files in SimFS, chunks added by "
+                   "add_file, modifications of source or host afterwards, rounds chained on any earlier "
+                   "environment. Faults: requests selecting none / unknown source / missing file (must "
+                   "abort; an empty import may abort or add nothing), ENOENT / EACCES / EIO / undecodable "
+                   "on a chosen open, file content replaced between rounds. Oracles: values, units, types "
+                   "and paths as the model predicts; after every round every earlier environment "
+                   "(including the base) and its custom units report exactly their commit-time snapshot "
+                   "and SimFS content is unchanged.",
+        level_note="Remote files use standard units; imports go below fresh groups (colliding paths are "
+                   "not generated); injection across data types only int -> float; slicing a node "
+                   "without value is not generated. File system is a stub (SimFS) installed as the "
+                   "module-level `open` of dip.dip and dip.nodes.node_source.",
+        design_ref="4 (C14/C16/C17), Appendix A"),
 }
 
 NOT_APPLICABLE = {
@@ -108,8 +164,4 @@ NOT_APPLICABLE = {
 
 # claimed by DESIGN.md, machine not committed yet (listed so that the manifest is never silent
 # about a property; entries disappear as the machines land)
-PENDING = {
-    "C14": "planned (dipstore machine) - not built yet in this commit",
-    "C16": "planned (dipstore machine) - not built yet in this commit",
-    "C17": "planned (dipstore machine) - not built yet in this commit",
-}
+PENDING = {}
